@@ -29,6 +29,7 @@ class C01(Check):
             "signature, feature set, set of problem codes fixed).")
     assumptions = ["both e2fsck runs see the same simulated clock epoch (the property says 'immediately following')",
                    "runs whose -fy status has an 'uncorrected/operational/usage/cancelled' bit are outside the property and only counted"]
+    max_shrunk_violations = 1000
     reference_models = ["the property statement itself (two exit statuses and the problem log of the second run)"]
 
     def budget(self, tier):
